@@ -36,7 +36,7 @@ def cases(draw):
     large = draw(st.floats(0, 1)) < 0.3
     if large and EXCLUDE_R13:
         from . import c08
-        if c08.om2_joins_inequivalent_sites(calc):
+        if c08.om2_joins_inequivalent_sites(calc) or (c08.EXCLUDE_R41 and c08.low_symmetry_orbit(calc)):
             large = False   # region of known finding R13 (reported under C08)
     data = draw(vs.datasets(calc, om2shift=(-draw(st.sampled_from([9., 18., 25.])) if large else 0.)))
     fam = draw(st.sampled_from(["bFT0", "bFT1", "bFT2"]))
